@@ -210,6 +210,14 @@ class _Ref:
             arg = args[0]
 
             if subclass_check(T, BitVector):
+                # a reference does not convert its argument,
+                # the argument must be a vector of the requested width
+                RefQualifierFail.raise_if(
+                    not instance_check(arg, BitVector)
+                    or (hasattr(T, "_width") and arg.width != T.width),
+                    f"cannot create reference of type '{T}' from argument '{arg}'",
+                )
+
                 if subclass_check(T, Signed):
                     return arg.signed
                 elif subclass_check(T, Unsigned):
